@@ -476,7 +476,6 @@ def resolve_unwind_fn(inst, cfile):
 
 
 def run_cbmc(inst, prep, witness, trace=False):
-    resolve_unwind_fn(inst, prep['cfile'])
     cmd = cbmc_cmd(prep['cfile'], inst, witness, trace)
     timeout = inst.get('timeout', 600)
     rc, out, err, t = sh(cmd, timeout=timeout, mem_gb=inst.get('mem_gb', 14))
@@ -515,6 +514,7 @@ def run_instance(inst, tier):
     rec['ir_instrs'] = prep['ir_instrs']
     rec['atomic_sites'] = len(prep['em'].sites)
     rec['externals'] = sorted(prep['em'].externals)
+    resolve_unwind_fn(inst, prep['cfile'])
     with ThreadPoolExecutor(2) as ex:
         fw = ex.submit(run_cbmc, inst, prep, True)
         fm = ex.submit(run_cbmc, inst, prep, False)
